@@ -263,6 +263,8 @@ class EpHost:
         elif k == "odd-pid":
             pid = rng.choice([D2, DM])
         self.tag("out:" + k)
+        if any(o[1] != ep and n > o[2] for o in self.outs):
+            self.tag("out:packet-longer-than-the-other-out-endpoints-mps")
         yield from self.emit(["tok", O, self.addr, ep])
         r = yield from self.emit(["data", pid, rng.bytes(n), int(k != "badcrc")])
         if r.resp.is_hs(ACK):
@@ -308,7 +310,10 @@ class EpHost:
             pid = rng.choice([I, O, P])
             yield from self.emit(["tok", pid, addr, ep])
             if pid == O:
-                yield from self.emit(["data", rng.choice([D0, D1]), rng.bytes(rng.choice([0, 1, 4, 8])), 1])
+                n = rng.choice([0, 1, 4, 8, 9, 17, 65])       # also longer than the max packet size of this device's OUT endpoints
+                if n > min([e[2] for e in self.outs] or [1024]):
+                    self.tag("unowned:out-packet-longer-than-an-out-endpoints-mps")
+                yield from self.emit(["data", rng.choice([D0, D1]), rng.bytes(n), 1])
             return
         pid = I if k == "in" else O
         cands = [n for n in range(1, 16) if ep_owner(self.spec, pid, n) is None]
@@ -317,7 +322,10 @@ class EpHost:
         ep = rng.choice(pref if pref and rng.chance(70) else cands)
         yield from self.emit(["tok", pid, self.addr, ep])
         if pid == O:
-            yield from self.emit(["data", rng.choice([D0, D1]), rng.bytes(rng.choice([0, 1, 4, 8])), 1])
+            n = rng.choice([0, 1, 4, 8, 9, 17, 65])       # also longer than the max packet size of this device's OUT endpoints
+            if n > min([e[2] for e in self.outs] or [1024]):
+                self.tag("unowned:out-packet-longer-than-an-out-endpoints-mps")
+            yield from self.emit(["data", rng.choice([D0, D1]), rng.bytes(n), 1])
 
     # -- control transfers
     def control(self):
@@ -348,6 +356,8 @@ class EpHost:
             su = DH.setup_bytes(0x00, 5, rng.choice([0, 3, 17, 99]), 0, 0)
         else:
             su = DH.setup_bytes(0x80, 6, 0x0100, 0, 18)
+        if any(o[2] < 8 for o in self.outs):
+            self.tag("ctl:setup-packet-longer-than-an-out-endpoints-mps")
         yield from self.emit(["tok", S, self.addr, 0])
         r = yield from self.emit(["data", D0, su, 1])
         if not r.resp.is_hs(ACK):
